@@ -26,11 +26,52 @@ type Op struct {
 	Args   [][]int `json:"args,omitempty"`
 }
 
+// Persistent values: created once per history and passed again by later calls,
+// so they carry whatever earlier calls wrote into them (keys, reference
+// fields). keptT3 starts as {key 3, name}, keptNew starts without key.
+const (
+	keptNew = 100
+	keptT3  = 103
+)
+
 func symName(s int) string {
-	if s == 0 {
+	switch {
+	case s == 0:
 		return "new"
+	case s == keptNew:
+		return "kept-new"
+	case s > keptNew:
+		return fmt.Sprintf("kept-t%d", s-keptNew)
 	}
 	return fmt.Sprintf("t%d", s)
+}
+
+// KeptVal: key and name a persistent value carries. They are read from the Go
+// value itself after every call (the value is part of the state a history has
+// reached, i.e. input for the next call): gorm may write into a value it was
+// given earlier, e.g. zero it when it is aliased by a pointer relation field.
+type KeptVal struct {
+	Key  uint
+	Name string
+}
+
+// keyOf: the primary key a target symbol carries in this state (0 = none).
+func (m *Model) keyOf(sym int) uint {
+	if sym >= keptNew {
+		return m.Kept[sym].Key
+	}
+	return uint(sym)
+}
+
+// nameOf: the name a record created from this symbol's value gets.
+func (m *Model) nameOf(sym int) string {
+	switch {
+	case sym >= keptNew:
+		return m.Kept[sym].Name
+	case sym == 0:
+		return "n"
+	}
+	return fmt.Sprintf("t%d", sym)
 }
 
 func (o Op) String() string {
@@ -75,16 +116,31 @@ func pathString(p []Op) string {
 
 func (o Op) mutator() bool { return o.Code != "Count" && o.Code != "Find" }
 
-func (o Op) newCount() int {
+func (o Op) newCount(m *Model) int {
 	n := 0
+	seenKept := false
 	for _, a := range o.Args {
 		for _, s := range a {
-			if s == 0 {
+			if m.keyOf(s) == 0 && o.Code != "Delete" && !(s == keptNew && seenKept) {
 				n++
+			}
+			if s == keptNew {
+				seenKept = true
 			}
 		}
 	}
 	return n
+}
+
+func (o Op) usesKept() bool {
+	for _, a := range o.Args {
+		for _, s := range a {
+			if s >= keptNew {
+				return true
+			}
+		}
+	}
+	return false
 }
 
 var allSyms = []int{1, 2, 3, 4, 0}
@@ -100,6 +156,26 @@ var singlePairs = [][]int{{1, 1}, {1, 2}, {1, 3}, {2, 3}, {3, 3}, {3, 4}, {4, 0}
 var mixedNewLists = [][]int{{0, 3, 0}, {0, 1, 0}, {3, 0, 0}, {0, 0, 3}, {0, 3, 1, 0}}
 var deletePairs = [][]int{{1, 1}, {1, 2}, {1, 3}, {2, 3}, {3, 4}}
 var keyedSyms = []int{1, 2, 3, 4}
+
+// focusAlphabet: the sub-alphabet of the kept-value search.
+func focusAlphabet(k Kind) []Op {
+	var out []Op
+	for _, o := range alphabet(k, false) {
+		if o.Derive {
+			continue
+		}
+		single13 := len(o.Args) == 1 && len(o.Args[0]) == 1 && (o.Args[0][0] == 1 || o.Args[0][0] == 3)
+		switch {
+		case o.usesKept(), len(o.Args) == 0:
+			out = append(out, o)
+		case o.Code == "Delete" && len(o.Args[0]) == 1:
+			out = append(out, o)
+		case (o.Code == "Append" || o.Code == "Replace") && single13:
+			out = append(out, o)
+		}
+	}
+	return out
+}
 
 // alphabet of a configuration (before the state-dependent guards).
 func alphabet(k Kind, slice bool) []Op {
@@ -138,6 +214,14 @@ func alphabet(k Kind, slice bool) []Op {
 				perParent = append(perParent, []int{1, 9}, []int{9, 3})
 			}
 		}
+	}
+	if !slice {
+		// persistent values that later calls pass again
+		perParent = append(perParent, []int{keptT3}, []int{keptNew})
+		if !k.single() {
+			perParent = append(perParent, []int{keptT3, keptT3}, []int{keptNew, keptT3}, []int{1, keptT3})
+		}
+		dsyms = append(append([]int{}, dsyms...), keptT3, keptNew)
 	}
 	var argLists [][][]int
 	if !slice {
@@ -188,7 +272,7 @@ func alphabet(k Kind, slice bool) []Op {
 		if slice && len(o.Args) > 1 {
 			small = false
 		}
-		if !small || (o.Code == "Append" && len(o.Args) > 0 && !k.single()) {
+		if !small || o.usesKept() || (o.Code == "Append" && len(o.Args) > 0 && !k.single()) {
 			continue
 		}
 		d := o
@@ -217,6 +301,7 @@ func sharesKeyed(a, b []int) bool {
 type Model struct {
 	Links map[Link]bool
 	Rows  map[uint]TRow
+	Kept  map[int]KeptVal // persistent values (single-parent configurations)
 }
 
 func i64(n int64) sql.NullInt64   { return sql.NullInt64{Int64: n, Valid: true} }
@@ -224,6 +309,7 @@ func str(s string) sql.NullString { return sql.NullString{String: s, Valid: true
 
 func initialModel(k Kind) *Model {
 	m := &Model{Links: map[Link]bool{{pA, 1}: true, {pC, 2}: true}, Rows: map[uint]TRow{}}
+	m.Kept = map[int]KeptVal{keptT3: {3, "t3"}, keptNew: {0, "n"}}
 	m.Rows[1] = TRow{ID: 1, Name: "t1", One: i64(1), Many: i64(1), PolyID: i64(1), PolyType: str(polyValue), SoloID: i64(1), SoloType: str(polyValue)}
 	m.Rows[2] = TRow{ID: 2, Name: "t2", One: i64(3), Many: i64(3), PolyID: i64(3), PolyType: str(polyValue), SoloID: i64(3), SoloType: str(polyValue)}
 	m.Rows[3] = TRow{ID: 3, Name: "t3", PolyType: str(""), SoloType: str("")}
@@ -233,7 +319,7 @@ func initialModel(k Kind) *Model {
 }
 
 func (m *Model) clone() *Model {
-	c := &Model{Links: map[Link]bool{}, Rows: map[uint]TRow{}}
+	c := &Model{Links: map[Link]bool{}, Rows: map[uint]TRow{}, Kept: m.Kept}
 	for l := range m.Links {
 		c.Links[l] = true
 	}
@@ -245,11 +331,7 @@ func (m *Model) clone() *Model {
 
 // a record created by association mode from a value that carries nothing but
 // key and name: the columns of the other relations get their Go zero values.
-func newRow(id uint, sym int) TRow {
-	name := "n"
-	if sym != 0 {
-		name = fmt.Sprintf("t%d", sym)
-	}
+func newRow(id uint, name string) TRow {
 	return TRow{ID: id, Name: name, One: i64(0), PolyID: i64(0), PolyType: str(""), SoloID: i64(0), SoloType: str("")}
 }
 
@@ -338,7 +420,7 @@ func (m *Model) step(k Kind, ps []uint, op Op, res [][]uint) (ambiguous string) 
 			for j, t := range res[i] {
 				union[t] = true
 				if _, ok := m.Rows[t]; !ok {
-					m.Rows[t] = newRow(t, op.Args[i][j])
+					m.Rows[t] = newRow(t, m.nameOf(op.Args[i][j]))
 				}
 			}
 		}
@@ -417,17 +499,25 @@ func (m *Model) step(k Kind, ps []uint, op Op, res [][]uint) (ambiguous string) 
 }
 
 // placeholder keys for guard evaluation
-func placeholderRes(op Op) [][]uint {
+func placeholderRes(m *Model, op Op) [][]uint {
 	var res [][]uint
 	next := uint(1000)
+	kept := uint(0)
 	for _, a := range op.Args {
 		var r []uint
 		for _, s := range a {
-			if s == 0 {
+			switch {
+			case m.keyOf(s) != 0:
+				r = append(r, m.keyOf(s))
+			case s == keptNew:
+				if kept == 0 {
+					kept = next
+					next++
+				}
+				r = append(r, kept)
+			default:
 				r = append(r, next)
 				next++
-			} else {
-				r = append(r, uint(s))
 			}
 		}
 		res = append(res, r)
@@ -454,14 +544,14 @@ func enabled(k Kind, ps []uint, m *Model, op Op) (bool, string) {
 	// one key-less record per call needs room under maxNew; a call with several
 	// key-less records is enabled only while none is stored (so at most as many
 	// as the largest such call are ever stored at once)
-	if n := op.newCount(); n == 1 && m.aliveNew()+n > maxNew || n > 1 && m.aliveNew() > 0 {
+	if n := op.newCount(m); n == 1 && m.aliveNew()+n > maxNew || n > 1 && m.aliveNew() > 0 {
 		return false, "row-cap"
 	}
 	if !op.mutator() {
 		return true, ""
 	}
 	c := m.clone()
-	if amb := c.step(k, ps, op, placeholderRes(op)); amb != "" {
+	if amb := c.step(k, ps, op, placeholderRes(m, op)); amb != "" {
 		return false, amb
 	}
 	return true, ""
@@ -475,10 +565,10 @@ func argClasses(k Kind, ps []uint, m *Model, op Op) string {
 		operated[p] = true
 	}
 	class := func(slot int, s int) string {
-		if s == 0 {
+		t := m.keyOf(s)
+		if t == 0 {
 			return "new"
 		}
-		t := uint(s)
 		if _, ok := m.Rows[t]; !ok {
 			if len(m.parentsOf(t)) > 0 {
 				return "absent-dangling"
@@ -541,8 +631,8 @@ func featureTags(k Kind, slice bool, ps []uint, m *Model, op Op) []string {
 	argSet := map[uint]bool{}
 	for _, a := range op.Args {
 		for _, s := range a {
-			if s != 0 {
-				argSet[uint(s)] = true
+			if m.keyOf(s) != 0 {
+				argSet[m.keyOf(s)] = true
 			}
 		}
 	}
@@ -583,7 +673,7 @@ func featureTags(k Kind, slice bool, ps []uint, m *Model, op Op) []string {
 				for j := range ps {
 					if j != i {
 						for _, s := range op.Args[j] {
-							if s != 0 && uint(s) == t {
+							if m.keyOf(s) != 0 && m.keyOf(s) == t {
 								tags = append(tags, "many2many:slice-replace-dropped-target-listed-for-other-parent")
 								break outer
 							}
@@ -598,12 +688,12 @@ func featureTags(k Kind, slice bool, ps []uint, m *Model, op Op) []string {
 		seenAbsent := false
 		for _, a := range op.Args {
 			for _, s := range a {
-				if s == 0 && seenAbsent {
+				if m.keyOf(s) == 0 && seenAbsent {
 					tags = append(tags, "do-nothing-batch:unstored-keyed-record-before-keyless-record")
 					seenAbsent = false
 				}
-				if s != 0 {
-					if _, ok := m.Rows[uint(s)]; !ok {
+				if m.keyOf(s) != 0 {
+					if _, ok := m.Rows[m.keyOf(s)]; !ok {
 						seenAbsent = true
 					}
 				}
